@@ -115,6 +115,13 @@ def run(ck, rng, tier):
                 X = np.array([[rng.gauss(0, 1) * (3.6, 2500.0)[j % 2] for j in range(m)] for _ in range(n)])
                 X[:, 0] = np.array([1.0, 1, 2, 3, 3])[rng.sample(range(5), 5)] + float(rng.randint(-3, 3))
                 X[:, m - 1] = np.array([10.0, 12, 11, 10, 12])[rng.sample(range(5), 5)]
+            big_cpca = hno == 4 and step == 0
+            if big_cpca:
+                # CPCA with few blocks and as many components as the smaller block has variables (6 and 5 columns, 5 components):
+                # the list of column averages is SHORTER than the list of block explained variances
+                kind, mag, n, m = "cpca", 1.0, 9, 6
+                kinds_on[p] = kind
+                X = np.array([[rng.gauss(0, 1) * (1 + 0.4 * j) for j in range(m)] for _ in range(n)])
             if hno == 3 and step == 0:
                 # a model whose score table holds more than 500 numbers (60 objects, 10 components)
                 kind, mag, n, m = "pca", 1.0, 60, 12
@@ -134,8 +141,8 @@ def run(ck, rng, tier):
                 Y = X @ np.array([[rng.gauss(0, 1)] for _ in range(m)]) + mag * 0.1 * np.array([[rng.gauss(0, 1)] for _ in range(n)])
                 lines.append("write pls %s %s %s 0 0 %d" % (p, vf.fmt_mat(X.tolist(), m), vf.fmt_mat(Y.tolist(), 1), rng.randint(1, m)))
             else:
-                X2 = np.array([[rng.gauss(0, 1) for _ in range(2)] for _ in range(n)]) * mag
-                lines.append("write cpca %s %s 0 1" % (p, vf.fmt_tensor([X.tolist(), X2.tolist()])))
+                X2 = np.array([[rng.gauss(0, 1) for _ in range(5 if big_cpca else 2)] for _ in range(n)]) * mag
+                lines.append("write cpca %s %s 0 %d" % (p, vf.fmt_tensor([X.tolist(), X2.tolist()]), 5 if big_cpca else 1))
             meta.append(("write", hno, p, kind))
             if rng.random() < 0.5 or step == L - 1:
                 lines.append("read %s %s" % (kind, p))
